@@ -340,14 +340,9 @@ def solve_one(ob, axioms, timeout_ms=None, want_model=True, first_opts=None):
     # a quantifier-free goal with a product of two unknowns (index bounds of work splitting, ...):
     # the arithmetic core is tried first on the quantifier-free hypotheses alone
     try:
-        if not _has_quantifier(ob.goal, set()):
-            if _has_nonlinear_mul(ob.goal):
-                if _ground_attempt(ob, axioms, min(2000, max(500, timeout_ms * 0.2))):
-                    return 'proved', 'z3(ground-hyps)', time.time() - t0, None, None
-            elif any(_has_nonlinear_mul(h) for h in ob.hyps if not _has_quantifier(h, set())):
-                # the product sits in a hypothesis (an invariant): short attempt only
-                if _ground_attempt(ob, axioms, 600):
-                    return 'proved', 'z3(ground-hyps)', time.time() - t0, None, None
+        if not _has_quantifier(ob.goal, set()) and _has_nonlinear_mul(ob.goal) and \
+                _ground_attempt(ob, axioms, min(2000, max(500, timeout_ms * 0.2))):
+            return 'proved', 'z3(ground-hyps)', time.time() - t0, None, None
     except z3.Z3Exception:
         pass
     for n, (label, opts, share) in enumerate(PORTFOLIO):
